@@ -366,6 +366,23 @@ fn perturbations(name: &str) -> Vec<String> {
             v.push(name.replacen(a, b, 1));
         }
     }
+    // token-level edits: every '_'-separated token duplicated, deleted, swapped with its neighbour
+    let toks: Vec<&str> = name.split('_').collect();
+    for i in 0..toks.len() {
+        let mut d: Vec<&str> = toks.clone();
+        d.insert(i, toks[i]);
+        v.push(d.join("_"));
+        let mut r: Vec<&str> = toks.clone();
+        r.remove(i);
+        v.push(r.join("_"));
+        if i + 1 < toks.len() {
+            let mut w: Vec<&str> = toks.clone();
+            w.swap(i, i + 1);
+            v.push(w.join("_"));
+        }
+    }
+    v.push(format!("{}_{}", name, name));
+    v.push(format!("{}{}", name, name));
     for (pre, post) in [(" ", ""), ("", " "), ("\t", ""), ("", "\n"), ("", "\0"), ("\u{feff}", "")] {
         v.push(format!("{}{}{}", pre, name, post));
     }
